@@ -17,12 +17,19 @@ open Iodata.Effects
 * `shell.kinds[0] = "p"` in `molden._load_low`: `shell` iterates over `obasis.shells`, the list of fresh
   `Shell` objects built by `_load_helper_obasis`; the analysis marks every member of the new
   `MolecularBasis(shells, CONVENTIONS, …)` object as possibly aliasing the module table because one
-  constructor argument is that table (only `.conventions` does). -/
+  constructor argument is that table (only `.conventions` does).
+* `np.seterr(...)` in `iodata.__main__.main`: `main` is the entry point of the `iodata-convert` process (it parses
+  `sys.argv` and is the whole life of that interpreter), not an API call that later calls could follow; the same
+  statement in `convert()` or in any format module is *not* allowed (it would leak into the caller's process). -/
 def allowed : List (String × String × String × String) :=
-  [ ("iodata.formats.molden", "_load_low", "store-subscript", "shell.kinds[0]") ]
+  [ ("iodata.formats.molden", "_load_low", "store-subscript", "shell.kinds[0]"),
+    ("iodata.__main__", "main", "process-global:seterr", "np.seterr") ]
 
 /-- 1. No function of the package stores into, mutates in place, or calls a mutating method on a
-module-level table (periodic table, bond types, convention dictionaries, registries, constants). -/
+module-level table (periodic table, bond types, convention dictionaries, registries, constants), a function
+or class object, a shared default-argument object; none is memoised (`lru_cache` / `cache`); none sets
+interpreter- or library-wide state (numpy error mode and print options, warning filters outside a
+`catch_warnings` block, working directory, environment, locale, recursion limit, RNG seeds, `sys.path`). -/
 theorem no_global_effects :
     (Iodata.Gen.Effects.sites.filter (fun s => s.root == .glob)).all (fun s => allowed.contains s.key) = true := by
   decide +kernel
